@@ -40,7 +40,9 @@ def gen(rng, tier):
     reg = gen_registry(rng, nss, EVENTS)
     cfg = {'mode': mode, 'nss': nss, 'lat': rng.randrange(len(LATS)),
            'coroutine': rng.random() < 0.7, 'coro_cb': rng.random() < 0.5,
-           'msgpack': rng.random() < 0.15}
+           'msgpack': rng.random() < 0.15,
+           'cb_raise': rng.choice([0, 0, 2, 4]),
+           'cb_pause': rng.random() < 0.5}
     shapes = {ev: rng.choice(SHAPES) for ev in EVENTS + ['other']}
     ops = []
     tok = 0
@@ -140,14 +142,27 @@ def _run(case, cfg, w):
     mark_rx = base
 
     def make_cb(tag):
+        def maybe_raise():
+            if cfg.get('cb_raise') and w.choices.chance(
+                    'faults', cfg['cb_raise'], 8, 'cb_raise'):
+                w.rec.count('fault.callback_raise')
+                raise RuntimeError('injected callback failure')
         if cfg['coro_cb'] and w.mode == 'async':
             async def cb(*args):
+                import asyncio
                 w.rec.add('cb', tag=tag, args=args)
                 cb_log.append((tag, list(args)))
+                if cfg.get('cb_pause'):
+                    # a repeated ACK may arrive while the callback is
+                    # suspended: it must still run at most once
+                    await asyncio.sleep(w.choices.pick('app', PAUSES,
+                                                       'cbpause'))
+                maybe_raise()
         else:
             def cb(*args):
                 w.rec.add('cb', tag=tag, args=args)
                 cb_log.append((tag, list(args)))
+                maybe_raise()
         return cb
 
     def learn_ids(where):
@@ -252,6 +267,10 @@ def _run(case, cfg, w):
             n_cb = len(cb_log)
             n_err = len(w.rec.errors)
             ss.send_pkt(sio.ACK, ns, id_, payload)
+            if match and w.choices.chance('app', 1, 3, 'dup_in_flight'):
+                # the same ACK again, immediately behind the first
+                ss.send_pkt(sio.ACK, ns, id_, payload)
+                w.rec.count('fault.duplicate_ack_in_flight')
             w.settle(horizon=0.05)
             fired = cb_log[n_cb:]
             if match:
@@ -275,6 +294,9 @@ def _run(case, cfg, w):
                 v.add('callback_fired_for_wrong_ack', '%s (id %r, %s): fired '
                       '%s' % (where, id_, kind, fired), kind)
             for e in w.rec.errors[n_err:]:
+                if match and 'injected callback failure' in (
+                        e.get('exc') or ''):
+                    continue
                 v.add('ack_caused_error', '%s (id %r, %s): %s %s in %s'
                       % (where, id_, kind, e['msg'], e.get('exc'),
                          e.get('site')),
@@ -358,6 +380,8 @@ def _run(case, cfg, w):
             v.add('emit_raised', '%s raised %r' % (o.where, o.exc),
                   '%s@%s' % (type(o.exc).__name__, o.site))
     for e in w.rec.errors:
+        if 'injected callback failure' in (e.get('exc') or ''):
+            continue
         v.add('error_logged', '%s %s in %s' % (e['msg'], e.get('exc'),
                                                e.get('site')),
               '%s@%s' % ((e.get('exc') or e['msg']).split(':')[0][:40],
@@ -365,10 +389,14 @@ def _run(case, cfg, w):
     if w.mode == 'thread':
         from sim.world import exc_site
         for name, e in w.kernel.thread_errors:
+            if 'injected callback failure' in str(e):
+                continue
             v.add('thread_raised', '%s: %r in %s' % (name, e, exc_site(e)),
                   '%s@%s' % (type(e).__name__, exc_site(e)))
     return {'violations': v.items, 'digest': w.rec.digest.hex(),
             'nontrivial': nontrivial, 'stats': {
+                'faults': {k: n for k, n in w.rec.counters.items()
+                           if k.startswith('fault.')},
                 'events': len(expect_inv) + len(no_inv),
                 'acks_expected': len(expected_rx)},
             'sim_time': w.now() - 1_700_000_000.0,
